@@ -7,7 +7,7 @@ from harness.props import base
 PROP = {
     "id": "C10",
     "quick_n": 450,
-    "thorough_n": 8000,
+    "thorough_n": 4500,
     "rule": "one program = tree spec a and a copy b with exactly one structural mutation at a "
             "random depth (primitive type, num/low/high, binWidth/origin, centres, thresholds, Bag "
             "range, label keys, collection size, child type), both filled, then a+b, b+a, a+=b, "
